@@ -24,6 +24,7 @@ import (
 	"github.com/invopop/gobl"
 	"github.com/invopop/gobl/bill"
 	"github.com/invopop/gobl/cbc"
+	"github.com/invopop/gobl/dsig"
 	"github.com/invopop/gobl/note"
 	"github.com/invopop/gobl/org"
 
@@ -59,10 +60,28 @@ func rederivedAtUnmarshal(e *edit) bool {
 }
 
 type edit struct {
-	Kind string   `json:"kind"` // alter-leaf | remove-member | swap-first-two | drop-first | drop-last | add-unknown-member
+	// alter-leaf | negate-leaf | swap-cr-lf | append-slash | append-fragment | append-space | toggle-case |
+	// remove-member | add-unknown-member | add-member | add-sibling-member |
+	// swap-first-two | swap-distinct | rotate | reverse | drop-first | drop-last |
+	// respell-int | respell-int-exp | respell-float | add-null-member | add-null-sibling-member
+	Kind string   `json:"kind"`
 	Path []string `json:"path"`
 	Was  string   `json:"was,omitempty"`
 	Now  string   `json:"now,omitempty"`
+	I    int      `json:"i,omitempty"` // swap-distinct: the two positions
+	J    int      `json:"j,omitempty"`
+	Key  string   `json:"key,omitempty"` // add-member, add-sibling-member: the name of the new member
+	val  *c07.JV  // add-sibling-member: its value (a copy of the sibling's)
+}
+
+// the name of the member that `add-member` puts into every nested object: a valid cbc.Key, so that the
+// maps of the documents (meta, ext) take it as an entry, and unknown to every struct
+const addedKey = "verif-added"
+
+// rewriting: edits of the TEXT that need not be edits of the document — a number written in another way, a
+// member whose value is null added (null members are no content) — judged by judgeRewritten
+func rewriting(kind string) bool {
+	return strings.HasPrefix(kind, "respell-") || strings.HasPrefix(kind, "add-null-")
 }
 
 // ecase is a replayable case: one base envelope and one edit (or a re-encoding).
@@ -169,6 +188,18 @@ func enumerate(doc *c07.JV) []*edit {
 		p := append([]string(nil), path...)
 		switch v.K {
 		case c07.Obj:
+			// a member with a fresh name added to every nested object (the root and its members' objects get
+			// `add-unknown-member` in Run): kept where the object is a map of the document, dropped by
+			// encoding/json where it is a struct
+			if len(p) >= 2 {
+				if _, i := member(v, addedKey); i < 0 {
+					out = append(out, &edit{Kind: "add-member", Path: p, Key: addedKey})
+				}
+			}
+			// … and the complement: a member whose value is null is no content
+			if _, i := member(v, addedKey); i < 0 {
+				out = append(out, &edit{Kind: "add-null-member", Path: p, Key: addedKey})
+			}
 			for _, m := range v.M {
 				out = append(out, &edit{Kind: "remove-member", Path: append(append([]string(nil), p...), m.K)})
 				rec(m.V, append(p, m.K))
@@ -180,6 +211,24 @@ func enumerate(doc *c07.JV) []*edit {
 			if len(v.A) >= 1 {
 				out = append(out, &edit{Kind: "drop-last", Path: p})
 			}
+			// two elements of DIFFERENT content exchanged (other than the first two), the whole array
+			// rotated and reversed: arrays are ordered at every depth
+			if i, j, ok := distinctPair(v.A); ok {
+				out = append(out, &edit{Kind: "swap-distinct", Path: p, I: i, J: j})
+			}
+			if len(v.A) >= 3 {
+				out = append(out, &edit{Kind: "rotate", Path: p}, &edit{Kind: "reverse", Path: p})
+			}
+			// a member that one element of the array has and another lacks, added to the one that lacks it:
+			// a fresh name in that object which GOBL knows
+			for i, x := range v.A {
+				if k, val := siblingMember(v.A, i); k != "" {
+					_ = x
+					pi := append(append([]string(nil), p...), fmt.Sprintf("#%d", i))
+					out = append(out, &edit{Kind: "add-sibling-member", Path: pi, Key: k, val: val},
+						&edit{Kind: "add-null-sibling-member", Path: pi, Key: k})
+				}
+			}
 			for i, x := range v.A {
 				rec(x, append(p, fmt.Sprintf("#%d", i)))
 			}
@@ -187,6 +236,14 @@ func enumerate(doc *c07.JV) []*edit {
 			// null has a single value: nothing to alter within its type
 		default:
 			out = append(out, &edit{Kind: "alter-leaf", Path: p})
+			// the same number written as a number of another kind (`1` is an integer for c14n, `1.0` and
+			// `1e0` are the float64 1), and a float64 in another spelling (the same float64)
+			if v.K == c07.Int && v.I > -(1<<53) && v.I < 1<<53 {
+				out = append(out, &edit{Kind: "respell-int", Path: p}, &edit{Kind: "respell-int-exp", Path: p})
+			}
+			if v.K == c07.Flt {
+				out = append(out, &edit{Kind: "respell-float", Path: p})
+			}
 			// smallest meaningful changes within the type: the sign of a
 			// non-integer number, a carriage return against a line feed
 			if v.K == c07.Flt && v.F != 0 {
@@ -211,6 +268,55 @@ func enumerate(doc *c07.JV) []*edit {
 	}
 	rec(doc, nil)
 	return out
+}
+
+// distinctPair finds two positions i < j, other than (0, 1), whose elements differ in content.
+func distinctPair(a []*c07.JV) (int, int, bool) {
+	if len(a) < 3 {
+		return 0, 0, false
+	}
+	ns := make([]*c07.JV, len(a))
+	for i, x := range a {
+		ns[i] = c07.Norm(x)
+	}
+	for j := len(a) - 1; j >= 1; j-- {
+		for i := 0; i < j; i++ {
+			if (i != 0 || j != 1) && !c07.Equal(ns[i], ns[j]) {
+				return i, j, true
+			}
+		}
+	}
+	return 0, 0, false
+}
+
+// siblingMember: the first member (name and a copy of its value) that another object of the array has and
+// element i — an object — lacks.
+func siblingMember(a []*c07.JV, i int) (string, *c07.JV) {
+	if a[i].K != c07.Obj {
+		return "", nil
+	}
+	for j, y := range a {
+		if j == i || y.K != c07.Obj {
+			continue
+		}
+		for _, m := range y.M {
+			if _, k := member(a[i], m.K); k < 0 && m.V.K != c07.Null {
+				return m.K, clone(m.V)
+			}
+		}
+	}
+	return "", nil
+}
+
+// respelled writes the float64 f in a spelling json.Marshal and strconv would not choose:
+// all digits as an integer mantissa with an exponent.
+func respelled(f float64) string {
+	neg, ds, e := c07.FloatDigits(f)
+	sign := ""
+	if neg {
+		sign = "-"
+	}
+	return fmt.Sprintf("%s%se%d", sign, ds, e-len(ds)+1)
 }
 
 // apply performs the edit on a copy of the document.
@@ -283,9 +389,47 @@ func apply(doc *c07.JV, e *edit) *c07.JV {
 	case "add-unknown-member":
 		par := at(d, e.Path)
 		par.M = append(par.M, c07.Member{K: "x_verif_unknown", V: &c07.JV{K: c07.Str, S: "added"}})
+	case "add-member":
+		par := at(d, e.Path)
+		par.M = append(par.M, c07.Member{K: e.Key, V: &c07.JV{K: c07.Str, S: "added"}})
+	case "add-sibling-member":
+		par := at(d, e.Path)
+		par.M = append(par.M, c07.Member{K: e.Key, V: clone(e.val)})
+	case "add-null-member", "add-null-sibling-member":
+		par := at(d, e.Path)
+		par.M = append(par.M, c07.Member{K: e.Key, V: &c07.JV{K: c07.Null}})
+	case "respell-int", "respell-int-exp":
+		x := at(d, e.Path)
+		e.Was = fmt.Sprint(x.I)
+		f := float64(x.I)
+		raw := fmt.Sprintf("%d.0", x.I)
+		if e.Kind == "respell-int-exp" {
+			raw = fmt.Sprintf("%de0", x.I)
+		}
+		*x = c07.JV{K: c07.Flt, F: f, Raw: raw}
+		e.Now = raw
+	case "respell-float":
+		x := at(d, e.Path)
+		e.Was = x.Raw
+		if e.Was == "" {
+			e.Was = fmt.Sprint(x.F)
+		}
+		x.Raw = respelled(x.F)
+		e.Now = x.Raw
 	case "swap-first-two":
 		a := at(d, e.Path)
 		a.A[0], a.A[1] = a.A[1], a.A[0]
+	case "swap-distinct":
+		a := at(d, e.Path)
+		a.A[e.I], a.A[e.J] = a.A[e.J], a.A[e.I]
+	case "rotate":
+		a := at(d, e.Path)
+		a.A = append(append([]*c07.JV(nil), a.A[1:]...), a.A[0])
+	case "reverse":
+		a := at(d, e.Path)
+		for i, j := 0, len(a.A)-1; i < j; i, j = i+1, j-1 {
+			a.A[i], a.A[j] = a.A[j], a.A[i]
+		}
 	case "drop-first":
 		a := at(d, e.Path)
 		a.A = a.A[1:]
@@ -525,6 +669,13 @@ func sizedMessage(n int) *note.Message {
 	return m
 }
 
+// job is one edit of one base envelope; t is the edited envelope text.
+type job struct {
+	b *base
+	e *edit
+	t string
+}
+
 // Run is the C08 sweep.
 func Run(c *core.Ctx) int {
 	var rc ecase
@@ -601,11 +752,6 @@ func Run(c *core.Ctx) int {
 	}
 
 	// ---- every single edit
-	type job struct {
-		b *base
-		e *edit
-		t string
-	}
 	var jobs []job
 	total := 0
 	for _, b := range bases {
@@ -631,7 +777,8 @@ func Run(c *core.Ctx) int {
 			var keep []job
 			for _, j := range jobs {
 				// also every edit of the small generated bases and every sign / line-ending edit
-				if len(j.e.Path) <= 1 || strings.HasPrefix(j.b.name, "generated/") || j.e.Kind == "negate-leaf" || j.e.Kind == "swap-cr-lf" || len(keep) < want {
+				if len(j.e.Path) <= 1 || strings.HasPrefix(j.b.name, "generated/") || j.e.Kind == "negate-leaf" || j.e.Kind == "swap-cr-lf" ||
+					j.e.Kind == "swap-distinct" || j.e.Kind == "respell-float" || j.e.Kind == "add-null-sibling-member" || len(keep) < want {
 					keep = append(keep, j)
 				}
 			}
@@ -650,7 +797,7 @@ func Run(c *core.Ctx) int {
 			for i := range ch {
 				j := &jobs[i]
 				d2 := apply(j.b.doc, j.e)
-				if c07.Equal(c07.Norm(d2), c07.Norm(j.b.doc)) {
+				if c07.Equal(c07.Norm(d2), c07.Norm(j.b.doc)) && !rewriting(j.e.Kind) {
 					skip[i] = true // e.g. swapping two equal elements: not a change of content
 					continue
 				}
@@ -750,13 +897,200 @@ func Run(c *core.Ctx) int {
 		}
 	}
 
+	// ---- the edit calculus: the Lean oracle performs the same edit on the same document
+	editTie(c, jobs)
+
 	c.Note("members unknown to GOBL's structs that are added to the document are dropped by encoding/json before any GOBL code runs, so the envelope keeps validating: %d of %d such additions (counted under unknown_member_added:*, not judged: DESIGN.md C08 'Not covered')",
 		c.Counters["unknown_member_added:validates"], c.Counters["edit:add-unknown-member"])
 	if n := c.Counters["recalc:panic"]; n > 0 {
 		c.Note("Envelope.Calculate panicked on %d edited documents (after Validate had already returned its verdict; a C14 matter): see the 'recalc:panic at …' counters", n)
 	}
-	return c.Finish("every single edit of the serialised document of every valid example envelope and of a few generated documents (every leaf altered within its type, every member removed, first two array elements swapped, first/last element dropped, an unknown member added), presented to json.Unmarshal + Envelope.Validate without recalculating, then Calculate; outcomes classified; content-preserving re-encodings (member order, whitespace, escape styles incl. \\/) must validate; model tie: SHA-256 of the Lean model's canonical bytes of json.Marshal(e.Document) = Envelope.Digest; non-trivial = every edit; distinct by base, edit kind and path",
+	c.Note("text edits that need not be edits of the document (a number respelled, a null member added): %d presented; GOBL's view of the document and the digest unchanged in %d, both changed in %d (an integer field refuses `1.0`: %d parse errors; a null entry in a map of the document becomes an empty entry)",
+		c.Counters["edit:respell-int"]+c.Counters["edit:respell-int-exp"]+c.Counters["edit:respell-float"]+c.Counters["edit:add-null-member"]+c.Counters["edit:add-null-sibling-member"],
+		c.Counters["rewritten:same_document_same_digest"], c.Counters["rewritten:read_as_another_document_digest_differs"],
+		c.Counters["rewritten:respell-int:parse-error"]+c.Counters["rewritten:respell-int-exp:parse-error"])
+	return c.Finish("every single edit of the serialised document of every valid example envelope and of a few generated documents (every leaf altered within its type, every member removed, first two array elements swapped, two elements of different content swapped, arrays rotated and reversed, first/last element dropped, a member added: unknown, under a fresh name in every nested object, under a name a sibling element has), presented to json.Unmarshal + Envelope.Validate without recalculating, then Calculate; outcomes classified; text edits that need not be edits of the document (a number respelled as a number of another kind or in another spelling, a null member added) judged by GOBL's view of the document: digest changes iff the view changes; content-preserving re-encodings (member order, whitespace, escape styles incl. \\/) must validate; model tie: SHA-256 of the Lean model's canonical bytes of json.Marshal(e.Document) = Envelope.Digest; edit tie: a sample of every edit kind performed by the Lean edit functions on the same document, oracle verdict (content changes) = canonical bytes differ = dsig digests of the two texts differ, canonical bytes = c14n.CanonicalJSON of the edited text; non-trivial = every edit; distinct by base, edit kind and path",
 		map[string]any{"bases": len(bases), "edits_enumerated": total, "edits_run": len(jobs)})
+}
+
+// pathToks writes a path for the `edit` request of the driver: the number of steps, then `k <hexkey>` / `x <index>`.
+func pathToks(path []string) string {
+	var sb strings.Builder
+	fmt.Fprintf(&sb, "%d", len(path))
+	for _, p := range path {
+		if strings.HasPrefix(p, "#") {
+			sb.WriteString(" x " + p[1:])
+		} else {
+			sb.WriteString(" k " + encKey(p))
+		}
+	}
+	return sb.String()
+}
+
+func encKey(k string) string {
+	if k == "" {
+		return "-"
+	}
+	return hex.EncodeToString([]byte(k))
+}
+
+// editRequest states the edit in the terms of Spec/C08.lean `applyOp` (set / ins / del / swap at the end of a
+// path); d2 is the document as the harness edited it.
+func editRequest(doc, d2 *c07.JV, e *edit) (string, bool) {
+	if c07.HasBig(doc) || c07.HasBig(d2) {
+		return "", false
+	}
+	tail := " " + doc.EncString()
+	switch e.Kind {
+	case "remove-member":
+		n := len(e.Path) - 1
+		return "edit del " + pathToks(e.Path[:n]) + " " + encKey(e.Path[n]) + tail, true
+	case "add-unknown-member", "add-member", "add-sibling-member", "add-null-member", "add-null-sibling-member":
+		par := at(d2, e.Path)
+		m := par.M[len(par.M)-1]
+		return fmt.Sprintf("edit ins %s %d %s %s", pathToks(e.Path), len(par.M)-1, encKey(m.K), m.V.EncString()) + tail, true
+	case "swap-first-two":
+		return "edit swap " + pathToks(e.Path) + " 0 1" + tail, true
+	case "swap-distinct":
+		return fmt.Sprintf("edit swap %s %d %d", pathToks(e.Path), e.I, e.J) + tail, true
+	default: // a leaf replaced by another one; for drop-first / drop-last / rotate / reverse: the array by the rearranged one
+		return "edit set " + pathToks(e.Path) + " " + at(d2, e.Path).EncString() + tail, true
+	}
+}
+
+// editTie sends a sample of the swept edits — every kind, content-preserving ones included — to the Lean
+// side, which performs the edit itself (Model/JsonEdit.lean through Spec/C08.lean `applyOp`) and answers with
+// the oracle's verdict "the content changes" (proved right: Props/C08 `edit_verdict_sound`) and with the
+// canonical bytes of the edited document.  Compared, on the serialised documents as texts (no GOBL struct in
+// between): the canonical bytes with c14n.CanonicalJSON of the text the harness edited, their SHA-256 with
+// dsig.NewSHA256Digest, and the verdict with "the digest of the edited text differs from the digest of the text".
+func editTie(c *core.Ctx, jobs []job) {
+	perKind := c.Pick(40, 400)
+	byKind := map[string][]int{}
+	var kinds []string
+	for i := range jobs {
+		k := jobs[i].e.Kind
+		if _, ok := byKind[k]; !ok {
+			kinds = append(kinds, k)
+		}
+		byKind[k] = append(byKind[k], i)
+	}
+	sort.Strings(kinds)
+	type tcase struct {
+		job    int
+		d0, d2 string // digests GOBL's functions give for the two texts
+		c2     []byte
+		goErr  string
+	}
+	var reqs []string
+	var tcs []tcase
+	r := rand.New(rand.NewSource(1))
+	for _, k := range kinds {
+		idx := byKind[k]
+		step := len(idx)/perKind + 1
+		for n := 0; n < len(idx); n += step {
+			j := &jobs[idx[n]]
+			d2 := apply(j.b.doc, j.e)
+			req, ok := editRequest(j.b.doc, d2, j.e)
+			if !ok {
+				c.Count("edit_tie:skipped_number_beyond_float64", 1)
+				continue
+			}
+			t0, _ := c07.Render(j.b.doc, c07.Style{}, r)
+			t2, _ := c07.Render(d2, c07.Style{}, r)
+			tc := tcase{job: idx[n]}
+			c0, err0 := c14n.CanonicalJSON(strings.NewReader(t0))
+			c2, err2 := c14n.CanonicalJSON(strings.NewReader(t2))
+			switch {
+			case err0 != nil:
+				tc.goErr = err0.Error()
+			case err2 != nil:
+				tc.goErr = err2.Error()
+			default:
+				tc.d0, tc.d2, tc.c2 = dsig.NewSHA256Digest(c0).Value, dsig.NewSHA256Digest(c2).Value, c2
+			}
+			reqs = append(reqs, req)
+			tcs = append(tcs, tc)
+		}
+	}
+	resp, err := c.Model(reqs)
+	if err != nil {
+		c.TieBroken("drive:C08/model", err.Error(), nil)
+		return
+	}
+	for i, rs := range resp {
+		tc := &tcs[i]
+		j := &jobs[tc.job]
+		where := fmt.Sprintf("%s: %s at doc/%s", j.b.name, j.e.Kind, strings.Join(j.e.Path, "/"))
+		detail := map[string]any{"base": j.b.name, "edit": j.e}
+		f := strings.Fields(rs)
+		c.Count("edit_tie", 1)
+		if len(f) != 4 || f[0] != "ok" {
+			switch {
+			case rs == "undef":
+				c.Count("edit_tie:skipped_outside_model", 1)
+			case rs == "err" && tc.goErr != "":
+				c.Count("edit_tie:both_refuse", 1)
+			default:
+				c.TieBroken("drive:C08/edit", fmt.Sprintf("%s: the Lean side cannot perform the edit (%s)", where, short(rs)), detail)
+			}
+			continue
+		}
+		if tc.goErr != "" {
+			c.TieBroken("drive:C08/edit", where+": c14n.CanonicalJSON refuses a text the model canonicalises: "+short(tc.goErr), detail)
+			continue
+		}
+		predicted, differs := f[1] == "1", f[2] == "1"
+		raw, _ := hex.DecodeString(strings.TrimPrefix(f[3], "-"))
+		sum := sha256.Sum256(raw)
+		c.Count(fmt.Sprintf("edit_tie:%s:content_changes=%v", j.e.Kind, predicted), 1)
+		c.Eval("edit-tie:"+where, true)
+		switch {
+		case predicted != differs:
+			c.TieBroken("drive:C08/edit-oracle", fmt.Sprintf("%s: the oracle says content changes=%v, the canonical bytes of the model differ=%v", where, predicted, differs), detail)
+		case !bytes.Equal(raw, tc.c2):
+			c.TieBroken("drive:C08/edit-canon", where+": the canonical bytes of the document edited by the Lean functions differ from c14n.CanonicalJSON of the text edited by the harness", detail)
+		case hex.EncodeToString(sum[:]) != tc.d2:
+			c.TieBroken("drive:C08/edit-digest", where+": SHA-256 of the model's canonical bytes differs from dsig.NewSHA256Digest of the same bytes", detail)
+		case predicted != (tc.d0 != tc.d2):
+			c.TieBroken("drive:C08/edit-verdict", fmt.Sprintf("%s: the oracle says content changes=%v, the digests of the two texts differ=%v", where, predicted, tc.d0 != tc.d2), detail)
+		}
+	}
+}
+
+// judgeRewritten: an edit of the serialised TEXT that need not be an edit of the document.
+//   - A number written in another way: an integer as `N.0` / `Ne0` (for c14n and for `norm` a number of
+//     another kind: the content of the text changes), a float64 in another spelling (the same float64: the
+//     content of the text does not change).
+//   - A member whose value is null added, under a name GOBL does not know or under the name of a member
+//     that a sibling has (for `norm` no change of content: null members are none).
+//
+// GOBL reads the text into typed fields first and the digest is taken of what it writes back, so whether
+// this is a change of the document is decided by GOBL's view of it (json.Marshal(e.Document)), not by the
+// text: a field of an integer type refuses `1.0` (parse error: evident), a float64 field reads the same
+// number, a null leaves a field as it is.  Judged: the digest changes iff GOBL's view of the document
+// changes, and the envelope validates only when it does not.
+func judgeRewritten(c *core.Ctx, ec *ecase, where string, o outcome) {
+	c.Count("rewritten:"+ec.Edit.Kind+":"+strings.SplitN(o.class, ":", 2)[0], 1)
+	switch {
+	case o.class == "panic":
+		c.Fail("", where+": panicked: "+short(o.detail), ec)
+	case o.class == "parse-error":
+		// the text is refused: evident
+	case o.reload != "":
+		c.Fail("", where+": "+o.reload, ec)
+	case !o.gdocSame && o.digestSame:
+		c.Fail("", where+": GOBL's view of the document changed but the digest did not", ec)
+	case o.gdocSame && !o.digestSame:
+		c.TieBroken("drive:C08/rewritten", where+": GOBL's view of the document is unchanged but Envelope.Digest differs from head.dig", ec)
+	case o.class == "validates" && !o.gdocSame:
+		c.Fail("", where+": the envelope still validates although GOBL's view of the document changed", ec)
+	case o.gdocSame:
+		c.Count("rewritten:same_document_same_digest", 1)
+	default:
+		c.Count("rewritten:read_as_another_document_digest_differs", 1)
+		c.Count("rewritten:read_as_another_document at "+ec.Edit.Kind+" "+lastName(ec.Edit.Path), 1)
+	}
 }
 
 // judgeOne applies the property oracle to one presented envelope.
@@ -779,6 +1113,18 @@ func judgeOne(c *core.Ctx, b *base, ec *ecase, o outcome) {
 		// members GOBL does not know are dropped by encoding/json before any GOBL code runs;
 		// counted separately (DESIGN.md, C08 "Not covered"), not judged
 		c.Count("unknown_member_added:"+o.class, 1)
+		return
+	}
+	if (e.Kind == "add-member" || e.Kind == "add-sibling-member") && o.class != "parse-error" && o.class != "panic" && o.gdocSame && o.digestSame {
+		// the new member does not reach GOBL's view of the document (a name the struct at that place
+		// does not have is dropped by encoding/json; for a sibling's name: the two elements are of
+		// different types, as the complements of a document are): counted, not judged, like the
+		// unknown member above
+		c.Count("member_added_not_seen_by_gobl:"+e.Kind+":"+o.class, 1)
+		return
+	}
+	if rewriting(e.Kind) {
+		judgeRewritten(c, ec, where, o)
 		return
 	}
 	c.Count("outcome:"+strings.SplitN(o.class, ":", 2)[0], 1)
